@@ -38,3 +38,52 @@ Example ex_decode :
     (decode_key ex_flat {| k_pre := 0%Z; k_rounds := [(1%Z, [0%Z; 0%Z], [5%Z])]; k_left := Some (0%Z, [0%Z], [2%Z]) |})
   = Some [[Some 1; Some 0; Some 0]; [Some 1; Some 2; Some 2]].
 Proof. vm_compute. reflexivity. Qed.
+
+(** A design of fragment F1 outside F0:
+    Repeat(CrossBlock([f0, f1], [f0], [Exclude(f0=c), Exclude(f1=z), AtMostKInARow(1, f1=x)], rcc=False),
+           [MinimumTrials(3), Pin(-1, f1=y)])
+    f0 = {a, b, (c)} crossed, f1 = {x, y, (z)} free: 3 trials, 2!*2^2 * 2*2 = 32 keys, of which the
+    rejection test (AtMostKInARow per repetition, Pin of the last trial) keeps 12. *)
+Open Scope string_scope.
+Definition ex1_flat : flat :=
+{| fl_design := [{| ff_name := "f0"; ff_hidden := false; ff_levels := [{| lv_name := "a"; lv_weight := 1; lv_accepts := [] |}; {| lv_name := "b"; lv_weight := 1; lv_accepts := [] |}; {| lv_name := "c"; lv_weight := 1; lv_accepts := [] |}]; ff_window := None; ff_complex := false |};
+      {| ff_name := "f1"; ff_hidden := false; ff_levels := [{| lv_name := "x"; lv_weight := 1; lv_accepts := [] |}; {| lv_name := "y"; lv_weight := 1; lv_accepts := [] |}; {| lv_name := "z"; lv_weight := 1; lv_accepts := [] |}]; ff_window := None; ff_complex := false |}];
+   fl_act := [0; 1]; fl_crossings := [[0]]; fl_sustains := [1]; fl_weights := [1]; fl_sizes := [2];
+   fl_preambles := [0]; fl_alignment := EqualPreamble; fl_alignment_preamble := 0; fl_min_trials := 3; fl_trials := 3;
+   fl_rcc := false; fl_exclude := [(0, 2); (1, 2)]; fl_excluded_derived := [];
+   fl_constraints := [(FCross);
+      (FConsistency);
+      (FExclude 0 2);
+      (FExclude 1 2);
+      (FAtMost 1 1 0 (Some {| g_trials := 2; g_preamble := 0; g_sustain := [(0, 1)] |}));
+      (FMinimumTrials (3)%Z);
+      (FPin (-1)%Z 1 1 (Some {| g_trials := 3; g_preamble := 0; g_sustain := [(0, 1)] |}))];
+   fl_errors_fail := false |}.
+Close Scope string_scope.
+
+Example ex1_frag : frag1 ex1_flat = true /\ frag0 ex1_flat = false /\ rejection_free ex1_flat = false.
+Proof. vm_compute. repeat split. Qed.
+Example ex1_keys : List.length (keys_of ex1_flat) = 32 /\ List.length (accepted_keys ex1_flat) = 12 /\
+                   List.length (all_valid (code_sem ex1_flat)) = 12.
+Proof. vm_compute. repeat split. Qed.
+Example ex1_checks : check_sound ex1_flat = true /\ check_inj ex1_flat = true /\ check_complete ex1_flat = true /\
+                     check_accepted_count ex1_flat = true.
+Proof. vm_compute. repeat split. Qed.
+
+(** a design in F1 and in the compile fragment [CodeSem.in_f1]: free-factor Exclude and AtMostKInARow *)
+Open Scope string_scope.
+Definition ex2_flat : flat :=
+{| fl_design := [{| ff_name := "f0"; ff_hidden := false; ff_levels := [{| lv_name := "a"; lv_weight := 1; lv_accepts := [] |}; {| lv_name := "b"; lv_weight := 1; lv_accepts := [] |}]; ff_window := None; ff_complex := false |};
+      {| ff_name := "f1"; ff_hidden := false; ff_levels := [{| lv_name := "x"; lv_weight := 1; lv_accepts := [] |}; {| lv_name := "y"; lv_weight := 1; lv_accepts := [] |}; {| lv_name := "z"; lv_weight := 1; lv_accepts := [] |}]; ff_window := None; ff_complex := false |}];
+   fl_act := [0; 1]; fl_crossings := [[0]]; fl_sustains := [1]; fl_weights := [1]; fl_sizes := [2];
+   fl_preambles := [0]; fl_alignment := EqualPreamble; fl_alignment_preamble := 0; fl_min_trials := 3; fl_trials := 3;
+   fl_rcc := true; fl_exclude := [(1, 2)]; fl_excluded_derived := [];
+   fl_constraints := [(FCross);
+      (FConsistency);
+      (FExclude 1 2);
+      (FAtMost 1 1 0 (Some {| g_trials := 2; g_preamble := 0; g_sustain := [(0, 1)] |}));
+      (FMinimumTrials (3)%Z)];
+   fl_errors_fail := false |}.
+Close Scope string_scope.
+Example ex2_frag : frag1 ex2_flat = true /\ frag0 ex2_flat = false.
+Proof. vm_compute. repeat split. Qed.
